@@ -486,4 +486,157 @@ theorem C24_old_keyword_cex :
     (specBody demoCfg header body).map firstKeyword = [some "limit"] := by
   decide
 
+/-! ### the function LIST: one test case per exported function, in file order -/
+
+/-- `parse_seed_module` deserialises exactly one test case per test function -/
+theorem parseFunctions_length (c : Cfg) : ∀ (fns : List (List Line)) (bs : Bindings),
+    (parseFunctions c bs fns).length = fns.length := by
+  intro fns
+  induction fns with
+  | nil => intro _; rfl
+  | cons f fs ih => intro bs; simp [parseFunctions, ih]
+
+/-- test functions without SUT imports (every file pynguin writes) are parsed independently of each
+other, position by position -/
+theorem parseFunctions_map (c : Cfg) : ∀ (fns : List (List Line)) (bs : Bindings),
+    (∀ body ∈ fns, ∀ s, Line.small s ∈ body → importBindings c s = none) →
+    parseFunctions c bs fns =
+      fns.map (fun body => deserialize c (normLines c [] (normLines c bs body).2).2) := by
+  intro fns
+  induction fns with
+  | nil => intro _ _; rfl
+  | cons f fs ih =>
+    intro bs h
+    have hb := normLines_bindings_unchanged c f bs (h f (by simp))
+    simp only [parseFunctions, List.map_cons, hb]
+    rw [ih bs (fun body hbody => h body (by simp [hbody]))]
+
+/-- the positions the driver reports are those of the returned test cases -/
+theorem contributingFrom_length : ∀ (tcs : List (List PStmt)) (i : Nat),
+    (contributingFrom i tcs).length = (collect tcs).length := by
+  intro tcs
+  induction tcs with
+  | nil => intro _; rfl
+  | cons tc rest ih =>
+    intro i
+    cases htc : tc.isEmpty <;> simp [contributingFrom, collect, htc] <;>
+      simpa [collect] using ih (i + 1)
+
+/-- **C24 over the whole file (repaired code).**  For every exported file whose test functions are
+admissible and non-empty, `parse_seed_module` returns exactly one test case per test function, in
+file order, and the i-th test case renders to the i-th function's body: nothing is skipped, merged
+or re-ordered — whatever the other functions of the file look like (clones of each other, same
+statements with different assertions, …). -/
+theorem C24_roundtrip_module (c : Cfg) (hr : Repaired c) (hca : c.createAssertions = true)
+    (header : List Small) (fns : List (List Line))
+    (hnoimp : ∀ body ∈ fns, ∀ s, Line.small s ∈ body → importBindings c s = none)
+    (hstable : ∀ body ∈ fns, (normLines c [] (specBody c header body)).2 = specBody c header body)
+    (hadm : ∀ body ∈ fns, Adm c c.ambient [] (specBody c header body))
+    (hne : ∀ body ∈ fns, specBody c header body ≠ []) :
+    (parseSeedModule c (headerBindings c header) fns).map renderBody = fns.map (specBody c header) := by
+  have hpf : parseFunctions c (headerBindings c header) fns = fns.map (parseFunction c header) :=
+    parseFunctions_map c fns _ hnoimp
+  have hrender : ∀ body ∈ fns, renderBody (parseFunction c header body) = specBody c header body :=
+    fun body hb => C24_roundtrip_parse_seed_module c hr hca header body (hstable body hb) (hadm body hb)
+  have hall : collect (fns.map (parseFunction c header)) = fns.map (parseFunction c header) := by
+    apply List.filter_eq_self.mpr
+    intro tc htc
+    obtain ⟨body, hb, rfl⟩ := List.mem_map.mp htc
+    have hrb := hrender body hb
+    cases hpf' : parseFunction c header body with
+    | nil =>
+      rw [hpf'] at hrb
+      exact absurd hrb.symm (hne body hb)
+    | cons _ _ => rfl
+  unfold parseSeedModule
+  rw [hpf, hall, List.map_map]
+  exact List.map_congr_left (fun body hb => hrender body hb)
+
+/-- number of returned test cases = number of exported test functions -/
+theorem C24_one_test_case_per_function (c : Cfg) (hr : Repaired c) (hca : c.createAssertions = true)
+    (header : List Small) (fns : List (List Line))
+    (hnoimp : ∀ body ∈ fns, ∀ s, Line.small s ∈ body → importBindings c s = none)
+    (hstable : ∀ body ∈ fns, (normLines c [] (specBody c header body)).2 = specBody c header body)
+    (hadm : ∀ body ∈ fns, Adm c c.ambient [] (specBody c header body))
+    (hne : ∀ body ∈ fns, specBody c header body ≠ []) :
+    (parseSeedModule c (headerBindings c header) fns).length = fns.length := by
+  have := congrArg List.length (C24_roundtrip_module c hr hca header fns hnoimp hstable hadm hne)
+  simpa using this
+
+/-- `var_0 = m_.next_id()` / `assert var_0 == n`: the same call traced at different module states -/
+def idBody (n : Nat) : List Line :=
+  [ .small (.assign [.name "var_0"] (.call (.attr (.name "m_") "next_id") [])),
+    .small (.assert_ (.cmp (.name "var_0") .eq (.const (.int n)))) ]
+
+theorem idBody_adm2 : Adm demoCfg demoCfg.ambient [] (idBody 2) := by
+  refine .assign (by decide) (by decide) ?_
+  refine .lifted (var := "var_0") (a := .object ["var_0"] (.int 2)) (by rfl) (by decide) (by rfl) ?_
+  exact .nil
+
+theorem idBody_adm6 : Adm demoCfg demoCfg.ambient [] (idBody 6) := by
+  refine .assign (by decide) (by decide) ?_
+  refine .lifted (var := "var_0") (a := .object ["var_0"] (.int 6)) (by rfl) (by decide) (by rfl) ?_
+  exact .nil
+
+theorem forall_mem4 {α : Type} {P : α → Prop} {a b c d : α} (ha : P a) (hb : P b) (hc : P c) (hd : P d) :
+    ∀ x ∈ [a, b, c, d], P x := by
+  intro x hx
+  simp only [List.mem_cons, List.not_mem_nil, or_false] at hx
+  rcases hx with rfl | rfl | rfl | rfl <;> assumption
+
+theorem demoBody_noimport : ∀ s, Line.small s ∈ demoBody → importBindings demoCfg s = none := by
+  intro s hs
+  simp [demoBody] at hs
+  rcases hs with rfl | rfl | rfl | rfl | rfl | rfl | rfl | rfl <;> rfl
+
+theorem idBody_noimport (n : Nat) : ∀ s, Line.small s ∈ idBody n → importBindings demoCfg s = none := by
+  intro s hs
+  simp [idBody] at hs
+  rcases hs with rfl | rfl <;> rfl
+
+/-- hypotheses of `C24_roundtrip_module` hold on a file with a clone and a same-statements /
+different-assertions pair: four functions in, four test cases out, each rendering to its function -/
+example : (parseSeedModule demoCfg (headerBindings demoCfg []) [demoBody, idBody 2, idBody 6, demoBody]).map
+    renderBody = [demoBody, idBody 2, idBody 6, demoBody] := by
+  have s1 : specBody demoCfg [] demoBody = demoBody := by rfl
+  have s2 : specBody demoCfg [] (idBody 2) = idBody 2 := by rfl
+  have s3 : specBody demoCfg [] (idBody 6) = idBody 6 := by rfl
+  have h := C24_roundtrip_module demoCfg ⟨rfl, rfl, rfl⟩ rfl [] [demoBody, idBody 2, idBody 6, demoBody]
+    (forall_mem4 demoBody_noimport (idBody_noimport 2) (idBody_noimport 6) demoBody_noimport)
+    (forall_mem4 (by rfl) (by rfl) (by rfl) (by rfl))
+    (forall_mem4 (by rw [s1]; exact demo_adm) (by rw [s2]; exact idBody_adm2) (by rw [s3]; exact idBody_adm6)
+      (by rw [s1]; exact demo_adm))
+    (forall_mem4 (by rw [s1]; simp [demoBody]) (by rw [s2]; simp [idBody]) (by rw [s3]; simp [idBody])
+      (by rw [s1]; simp [demoBody]))
+  rw [h]
+  simp only [List.map_cons, List.map_nil, s1, s2, s3]
+
+/-- **De-duplicating the imported test cases by their statements breaks the property** (the class of
+change `elif testcase in testcases: continue`, `TestCase.__eq__` comparing `to_code()` = statements
+without assertions): for ANY notion of "same" that holds for test cases with equal statement nodes,
+(1) the second of two functions with the same statements and different assertions gets no test
+case, (2) a clone of an earlier function gets none — while the code's loop keeps all of them. -/
+theorem C24_dedup_cex (same : List PStmt → List PStmt → Bool)
+    (hsame : ∀ a b : List PStmt, a.map (·.node) = b.map (·.node) → same a b = true) :
+    (collectDedup same [] (parseFunctions demoCfg [] [idBody 2, idBody 6])).length = 1 ∧
+    (collectDedup same [] (parseFunctions demoCfg [] [demoBody, demoBody])).length = 1 ∧
+    (collect (parseFunctions demoCfg [] [idBody 2, idBody 6])).length = 2 ∧
+    (collect (parseFunctions demoCfg [] [demoBody, demoBody])).length = 2 := by
+  have h1 : same (deserialize demoCfg (idBody 6)) (deserialize demoCfg (idBody 2)) = true :=
+    hsame _ _ (by rfl)
+  have h2 : same (deserialize demoCfg demoBody) (deserialize demoCfg demoBody) = true := hsame _ _ rfl
+  have e1 : (deserialize demoCfg (idBody 2)).isEmpty = false := by decide
+  have e2 : (deserialize demoCfg (idBody 6)).isEmpty = false := by decide
+  have e3 : (deserialize demoCfg demoBody).isEmpty = false := by decide
+  have n1 : (normLines demoCfg [] (normLines demoCfg [] (idBody 2)).2).2 = idBody 2 := by rfl
+  have n2 : (normLines demoCfg [] (normLines demoCfg [] (idBody 6)).2).2 = idBody 6 := by rfl
+  have n3 : (normLines demoCfg [] (normLines demoCfg [] demoBody).2).2 = demoBody := by rfl
+  have b1 : (normLines demoCfg [] (idBody 2)).1 = [] := by rfl
+  have b3 : (normLines demoCfg [] demoBody).1 = [] := by rfl
+  refine ⟨?_, ?_, ?_, ?_⟩
+  · simp [parseFunctions, collectDedup, n1, n2, b1, e1, e2, h1]
+  · simp [parseFunctions, collectDedup, n3, b3, e3, h2]
+  · simp [parseFunctions, collect, n1, n2, b1, e1, e2]
+  · simp [parseFunctions, collect, n3, b3, e3]
+
 end PynguinModel.SeedRoundTrip
